@@ -193,6 +193,16 @@ def crafted_streams():
             out.append(('pathsize0', reg + bytes(g)))
             g = bytearray(f); g[body + 1] = 1                      # path cut after the segment header
             out.append(('pathsize1', reg + bytes(g)))
+    # a SendRRData whose FIRST item is not the empty null address item (a null item that claims 4 bytes, a sockaddr-info item, an
+    # unknown type), followed by a perfectly good write: ill-formed, must not be executed
+    for wr in (('writef', ('sym', 'TA', None), 195, 2, 0, [('i', 0x1111), ('i', 0x1111)]), ('write', ('sym', 'T', 0), 196, 1, [('i', 0x2222)])):
+        f = E.build_unconnected(L.py_req(wr), ctx=b'cpfitem0', wrap=True)
+        pay = f[24:]
+        rest = pay[12:]                                  # from item 1 on (type, length, data)
+        for tid, content in ((0x0000, b'\x00\x00\x00\x00'), (0x8000, bytes(16)), (0x1234, b'ab')):
+            newpay = pay[:8] + struct.pack('<HH', tid, len(content)) + content + rest
+            g = f[:2] + struct.pack('<H', len(newpay)) + f[4:24] + newpay
+            out.append(('item0-%04x' % tid, reg + g))
     return out
 
 
@@ -346,7 +356,7 @@ def reference_view(stream):
 def salvage_bundle(f):
     """a SendRRData frame the reference rejects as a whole (trailing bytes after the items, a malformed later bundle member ...):
     the write REQUESTS in it that are complete and well-formed on their own - the region the data item declares, or the bundle
-    members preceding the first malformed one (cpppo executes exactly those).  -> standalone write frames"""
+    members that are well-formed on their own, delimited by an intact offset table (cpppo executes each member separately).  -> standalone write frames"""
     if len(f) < 24 + 16 + 2 or f[0] != 0x6F:
         return []
     pay = f[24:]
@@ -389,11 +399,11 @@ def salvage_bundle(f):
         member = bytes(tab[o:end])
         d = c01.model_dec(1, 0, [member])[0]
         if d is None:
-            break
+            continue                 # this member is malformed; the offset table still delimits the others, each a request of its own
         try:
             sem = K.tree_cip(d[0])
         except Exception:
-            break
+            continue
         if has_write(sem):
             # (as a bundle of one: a member addressed to an object that does not exist would, sent singly, end the session)
             one = bytes([0x0A, 0x02, 0x20, 0x02, 0x24, 0x01]) + struct.pack('<HH', 1, 4) + member
